@@ -97,8 +97,11 @@ def _null_of(dtype: str):
     return None  # int32, uint8, bool: no null marker understood by the kernels
 
 
-def _make_values(dtype: str, codes_idx, arb: bool):
-    alpha = _ARB_FLOATS if (arb and dtype.startswith("float")) else _ALPHA[dtype]
+_ARB_FLOATS_INF = [0.1, np.nan, 1e-3, -3.7, np.inf, 1 / 3, -np.inf]
+
+
+def _make_values(dtype: str, codes_idx, arb):
+    alpha = (_ARB_FLOATS_INF if arb == "inf" else _ARB_FLOATS) if (arb and dtype.startswith("float")) else _ALPHA[dtype]
     raw = [alpha[i % len(alpha)] for i in codes_idx]
     if dtype[0] in "dt":
         return np.array(raw, dtype="int64").view(dtype)
@@ -149,6 +152,8 @@ def gen_scenario(s: Choices, cls, cfg):
     sc["codes"] = codes
     # null pattern over values: as drawn / all null in a stretch
     arb = dtype.startswith("float") and s.chance(1, 10)
+    if arb and s.chance(1, 3):
+        arb = "inf"  # arbitrary floats with +inf and -inf among them
     sc["arbitrary_floats"] = arb
     nullpat = s.weighted([(6, "as_drawn"), (2, "null_prefix"), (2, "null_suffix"), (1, "all_null")])
     if _null_of(dtype) is None:
@@ -386,6 +391,10 @@ def to_canonical(arr, dtype_hint=None):
 
 
 def _same(a, b, tol=0.0):
+    if isinstance(a, float) and a != a:
+        a = None  # NaN (e.g. inf - inf) is null
+    if isinstance(b, float) and b != b:
+        b = None
     if a is None or b is None:
         return a is None and b is None
     if isinstance(a, bool) or isinstance(b, bool):
